@@ -7,7 +7,7 @@ PID = 'C09'
 CLAIM = dict(
     text='Krylov.tla: ExactStart (an initial residual that passes the test => the only continuation is AcceptInitial: Ok(0), x untouched) is checked by TLC for all four kinds; with the switch BiCGInitialCheck = FALSE (solve_bicg before fix D5) TLC exhibits the counterexample. '
          'The CG recurrences of solve_cg are transcribed over exact rationals and checked by TLC on every 2x2 symmetric strictly dominant integer system in scope: termination within n = 2 iterations, recurrence residual = true residual in every state, final iterate = Cramer solution; the exact iterates are emitted as cases and replayed on the real solvers. '
-         'Against the real code TLC validates every recorded call on generated systems with provable conditioning (SPD = D + S with Gershgorin-bounded kappa <= 12 and <= 1000; strictly row-dominant nonsymmetric with ratio <= 0.4 and diagonals of either sign; nonsymmetric dominant matrices with equal row and column sums or symmetric pattern (circulants, D + constant-weight cyclic shifts, D + weighted permutations, skew part + dominant diagonal, one SPD circulant sub-family for CG); strongly non-normal upwind stencils (family upw: tridiag(-a,d,-c) and pentadiagonal with a/c in {3,4,5,8}, d = a+c+margin, margin 1/0.5/0.1, n = 30..60 inside the window n*log10(a/c)/2 <= 13.6, and 5-point upwind convection-diffusion stencils on grids up to order 60; right-hand sides ones/sin(k h)/e_1/random, zero and random guesses, tol 1e-6..1e-10; BiCG, BiCGSTAB, QMR; iteration guard 10n+100); sequences on one Sparse object (insert overwriting / new entry / scale / transpose() between solves, judged against the current dense matrix); orders 1..60, every pattern/triplet order, right-hand sides 1e-8..1e8 and zero, guesses zero/random, tol 1e-12..1e-3): '
+         'Against the real code TLC validates every recorded call on generated systems with provable conditioning (SPD = D + S with Gershgorin-bounded kappa <= 12 and <= 1000; strictly row-dominant nonsymmetric with ratio <= 0.4 and diagonals of either sign; nonsymmetric dominant matrices with equal row and column sums or symmetric pattern (circulants, D + constant-weight cyclic shifts, D + weighted permutations, skew part + dominant diagonal, one SPD circulant sub-family for CG); strongly non-normal upwind stencils (family upw: tridiag(-a,d,-c) and pentadiagonal with a/c in {3,4,5,8}, d = a+c+margin, margin 1/0.5/0.1, n = 30..60 inside the window n*log10(a/c)/2 <= 13.6, and 5-point upwind convection-diffusion stencils on grids up to order 60; right-hand sides ones/sin(k h)/e_1/random, zero and random guesses, tol 1e-6..1e-10; BiCG, BiCGSTAB, QMR; iteration guard 10n+100); initial guesses at distance 1e3, 1e6, 1e9 (QMR: 1e7) from the solution with tol >= 1e-12 x distance (QMR 1e-10 x), all solver variants incl. BiCG itol 2; sequences on one Sparse object (insert overwriting / new entry / scale / transpose() between solves, judged against the current dense matrix); orders 1..60, every pattern/triplet order, right-hand sides 1e-8..1e8 and zero, guesses zero/random, tol 1e-12..1e-3): '
          'Ok, k <= 4n+40 (all kinds), for CG additionally k <= ceil(1.5*(sqrt(kappa)/2)*ln(2*sqrt(kappa)*max(1,|r0|/|b|)/tol))+5, agreement with Matrix::solve_basic on the dense copy within 4*kappa*tol + 64*n*kappa*eps; exact initial guess (integer systems, true residual exactly 0) => Ok(0) and x bit-identical; zero rhs + zero guess => Ok(0) and x = 0.',
     note='Decided exactly by TLC: ExactStart and the exact-rational CG laws (2x2 only: 3x3 overflows TLC integers). Resting on harness measurements: the Gershgorin / row-dominance condition bound, the CG iteration bound computed from it (logged as an integer, compared by the spec), agreement units against the dense solution. '
          '4n+40 is a calibrated constant (see notes), the CG bound is a-priori. Iterates are compared with the exact ones as conformance notes only. '
@@ -50,6 +50,7 @@ def check(ctx):
     ctx.notes.append('calibration of the upwind family (bin/krylov_calibrate.py thorough 1 24 upw: 24 seeds x 8 400 cases, 201 600 conv events): inside the strict window worst k/(4n+40) = 0.441 (bicg), 0.436 (qmr), 0.257 (bicgstab); '
                      'a parameter scan (20 seeds x 17 088 cases, all n = 30..60 in steps of 5) showed one BiCG near-breakdown inside the window at 1.054 x (4n+40) (pentadiagonal a/c = 3, n = 50, b = e_1, random guess), hence the family guard 10n+100 = 2.3 x that observation; '
                      'in the finding window (index >= 14.2) unmodified BiCG failed 1566 of 4800 and QMR 771 of 2400 runs.')
+    ctx.notes.append('far-guess cases (bin/krylov_calibrate.py thorough 1 24 far: 24 seeds x 9 000 cases): no failure, worst k/(4n+40) = 0.457 (bicgstab), agree_units <= 1; with a reduction of 1e-12 |r0| asked of solve_qmr it stalled in 4 of 54 000 runs (the recorded attainable-accuracy finding), hence the 1e-10 limit for QMR.')
     return ctx.finish(
         rule='cases: (i) every TLC-enumerated 2x2 system x 5 solver variants, (ii) seeded systems: families spd (kappa <= 12), spd3 (kappa <= 1000), dd, and integer twins spdi/ddi for exact starts x solver variants (CG on SPD only) x orders 1..60 x tolerances 1e-12..1e-3 x right-hand sides zero/random/A*x of scale 1e-8..1e8 x guesses zero/random/exact; '
              'events: conv (general), exact (exact guess), zero (zero rhs and guess), iter (conformance note). Every event is non-trivial; distinct = distinct event contents.',
